@@ -6,18 +6,26 @@ PROPS = {
     "C04": {
         "runs": {
             "quick": [{"harness": "polytree", "args": ["--scope", "S1", "--nmax", 4, "--treeD", 1]},
+                      {"harness": "polytree", "args": ["--scope", "S0", "--board", "twins", "--both", 1, "--k", 16, "--nmin", 4, "--nmax", 5, "--treeD", 1]},
+                      {"harness": "polytree", "args": ["--scope", "S1", "--board", "twins", "--k", 8, "--nmin", 3, "--nmax", 4, "--treeD", 1]},
                       {"harness": "polytree", "args": ["--scope", "rings", "--rings", 6]},
                       {"harness": "polytree", "args": ["--scope", "rect", "--g", 4, "--nsub", 2]},
-                      {"harness": "polytree", "args": ["--scope", "cells", "--w", 6, "--h", 6]}],
+                      {"harness": "polytree", "args": ["--scope", "cells", "--w", 6, "--h", 6]},
+                      {"harness": "polytree", "args": ["--scope", "cells", "--w", 7, "--h", 5, "--frames", 1]}],
             "thorough": [{"harness": "polytree", "args": ["--scope", "S1", "--nmax", 5, "--treeD", 1]},
+                         {"harness": "polytree", "args": ["--scope", "S0", "--board", "twins", "--both", 1, "--k", 16, "--nmin", 4, "--nmax", 6, "--treeD", 1]},
+                         {"harness": "polytree", "args": ["--scope", "S1", "--board", "twins", "--k", 8, "--nmin", 3, "--nmax", 5, "--treeD", 1]},
                          {"harness": "polytree", "args": ["--scope", "S2", "--nmax", 4]},
                          {"harness": "polytree", "args": ["--scope", "rings", "--rings", 8, "--treeD", 1]},
                          {"harness": "polytree", "args": ["--scope", "rect", "--g", 4, "--nsub", 3]},
                          {"harness": "polytree", "args": ["--scope", "cells", "--w", 7, "--h", 6]},
-                         {"harness": "polytree", "args": ["--scope", "cells", "--w", 6, "--h", 7]}],
+                         {"harness": "polytree", "args": ["--scope", "cells", "--w", 6, "--h", 7]},
+                         {"harness": "polytree", "args": ["--scope", "cells", "--w", 7, "--h", 5, "--frames", 1]},
+                         {"harness": "polytree", "args": ["--scope", "cells", "--w", 5, "--h", 7, "--frames", 1]},
+                         {"harness": "polytree", "args": ["--scope", "cells", "--w", 6, "--h", 6, "--frames", 1]}],
         },
-        "rule": "general-position scopes of C01 (also through ClipperD/PolyTreeD at precisions 0 and 2), every presence/orientation/subject-clip assignment of up to 8 concentric rings, and every set of 2-3 subject rectangles + 1 clip rectangle "
-                "on a 4-line lattice of spacing 4; a ring of cells round a 6x6 (thorough 7x6, 6x7) grid plus every subset of the interior cells in four rectangle decompositions (Union/NonZero, Xor with the interior, Difference/EvenOdd from the full square); x 4 clip types x 4 fill rules; non-trivial = the tree has depth >= 2 (at least one hole)",
+        "rule": "general-position scopes of C01 (also through ClipperD/PolyTreeD at precisions 0 and 2; also over the 'twins' boards: coordinates of order 10^5 with near-coincident point pairs, i.e. needle-thin spikes and crossings a few units apart), every presence/orientation/subject-clip assignment of up to 8 concentric rings, and every set of 2-3 subject rectangles + 1 clip rectangle "
+                "on a 4-line lattice of spacing 4; a ring of cells round a 6x6 (thorough 7x6, 6x7) grid plus every subset of the interior cells in ten rectangle decompositions (Union/NonZero, Xor with the interior, Difference/EvenOdd from the full square), and the same for 7x5 (thorough also 5x7, 6x6) grids with the ring given as four bars in each of the 81 corner-ownership variants (corner covered by both bars / the horizontal / the vertical one) and the interior as unit cells and as column runs; x 4 clip types x 4 fill rules; non-trivial = the tree has depth >= 2 (at least one hole)",
         "level_text": "Every input of the scopes is executed into Paths and into a PolyTree on the real library; flattened tree == paths (exact canonical equality), every child inside its parent and outside its siblings (exact point-in-polygon), orientation alternates with level, tree area == paths area.",
         "assumptions": ["scopes bounded as stated", "containment is judged at an edge midpoint of the child that is not on the other polygon's boundary"],
     },
